@@ -11,7 +11,8 @@ RULE = ("quick: exhaustive over cycles of 1..3 elements x durations 1..3 x 3 col
         "TrafficLight/cycle agreement")
 ANCHORS = ["TrafficLightCycle.get_state_at_time_step", "TrafficLight.get_state_at_time_step",
            "TrafficLightCycle.cycle_init_timesteps"]
-REQUIRED = ["single-element", "t<offset", "t-many-periods", "adjacent-same-colour", "light-agrees"]
+REQUIRED = ["single-element", "t<offset", "t-many-periods", "adjacent-same-colour", "light-agrees", "retimed.swap-durations", "retimed.shift-duration",
+            "retimed.reverse-in-place", "retimed.time_offset", "retimed.append"]
 EXHAUSTIVE = {"quick": "cycles of 1..3 elements, durations 1..3, colours {RED,GREEN,YELLOW}, offsets 0..4, t in -10..40",
               "thorough": "cycles of 1..3 elements, durations 1..4, all 5 colours, offsets 0..4, t in -10..40 "
                           "(random part beyond is not exhaustive)"}
@@ -127,3 +128,77 @@ def run(ctx):
         check_case(sd, off, tl, "random")
         if i < 2:
             ctx.sample({"cycle": [(s.name, d) for s, d in sd], "offset": off, "t": [int(t) for t in tl[:12]]})
+
+    # -------------------------------------------------------------------------------- re-timed cycles (same object)
+    # "for every traffic-light cycle": also one that has already answered queries and was then re-timed in place.
+    # After every edit the object answers for the elements / offset it has NOW.
+    nre = ctx.pick(250, 20000)
+    for i, rng in ctx.cases("retimed", nre):
+        n = rng.randint(2, 5)
+        sd = [(rng.choice(list(S)), rng.randint(1, 12)) for _ in range(n)]
+        if len({c for c, _ in sd}) == 1:
+            sd[0] = (S.RED if sd[1][0] != S.RED else S.GREEN, sd[0][1])
+        off = rng.choice([0, 0, 3, rng.randint(0, 30)])
+        cyc = TrafficLightCycle([TrafficLightCycleElement(c, d) for c, d in sd], time_offset=off)
+        light = TrafficLight(9, np.array([1.0, 2.0]), cyc)
+        hist = []
+        for step in range(rng.randint(2, 5)):
+            total = sum(d for _, d in sd)
+            tl = list(range(off - 2, off + 2 * total + 2)) + [off + 9 * total + rng.randint(0, total), -1 - rng.randint(0, 50)]
+            for t in tl:
+                ctx.evaluation()
+                exp = model(tuple(sd), off, t)
+                try:
+                    got = (cyc.get_state_at_time_step(t), light.get_state_at_time_step(t))
+                except Exception as e:  # noqa
+                    ctx.violation("C17/retimed/raises-%s" % type(e).__name__, repr(e)[:200], {"history": hist})
+                    break
+                if got[0] != exp or got[1] != exp:
+                    ctx.violation("C17/retimed/wrong-state-after/%s" % (hist[-1] if hist else "construction"),
+                                  "cycle %s offset %d t=%d: cycle says %s, light says %s, expected %s (history %s)" % (
+                                      [(c.name, d) for c, d in sd], off, t, got[0], got[1], exp, hist),
+                                  {"history": hist, "cycle": [(c.name, d) for c, d in sd], "offset": off, "t": t})
+                    break
+            op = ["swap-durations", "shift-duration", "reverse-in-place", "setter-same-total", "change-one-duration",
+                  "time_offset", "append", "pop", "recolour"][(i + step * 4) % 9]
+            els = cyc.cycle_elements
+            if op == "swap-durations":
+                a, b = rng.sample(range(len(sd)), 2)
+                els[a].duration, els[b].duration = els[b].duration, els[a].duration
+                sd[a], sd[b] = (sd[a][0], sd[b][1]), (sd[b][0], sd[a][1])
+            elif op == "shift-duration":      # total unchanged
+                a, b = rng.sample(range(len(sd)), 2)
+                if sd[a][1] > 1:
+                    els[a].duration -= 1
+                    els[b].duration += 1
+                    sd[a], sd[b] = (sd[a][0], sd[a][1] - 1), (sd[b][0], sd[b][1] + 1)
+            elif op == "reverse-in-place":
+                els.reverse()
+                sd.reverse()
+            elif op == "setter-same-total":
+                sd = sd[1:] + sd[:1]
+                cyc.cycle_elements = [TrafficLightCycleElement(c, d) for c, d in sd]
+            elif op == "change-one-duration":
+                a = rng.randrange(len(sd))
+                d = rng.randint(1, 15)
+                els[a].duration = d
+                sd[a] = (sd[a][0], d)
+            elif op == "time_offset":
+                off = rng.randint(0, 25)
+                cyc.time_offset = off
+            elif op == "append":
+                c, d = rng.choice(list(S)), rng.randint(1, 9)
+                els.append(TrafficLightCycleElement(c, d))
+                sd.append((c, d))
+            elif op == "pop":
+                if len(sd) > 1:
+                    els.pop()
+                    sd.pop()
+            else:
+                a = rng.randrange(len(sd))
+                c = rng.choice(list(S))
+                els[a].state = c
+                sd[a] = (c, sd[a][1])
+            hist.append(op)
+            ctx.feature("retimed." + op)
+        ctx.fingerprint(["retimed", i, hist])
